@@ -396,6 +396,24 @@ func (g *apiGen) sortSpec() (bson.D, bool) {
 	return sortSpec(r, g.malformed), true
 }
 
+// sortSpecFor: a third of the sorted calls on a collection with secondary indexes sort by the key of
+// one of them (C13: the order is "stable sort of the matching documents" whatever indexes exist).
+func (g *apiGen) sortSpecFor(db, coll string) (bson.D, bool) {
+	if sec := g.secondaryIndexNames(db, coll); len(sec) > 0 && g.r.P(35) {
+		ns := g.env.engine.Catalog().Namespaces[lungo.Handle{db, coll}]
+		key := *ns.Indexes[sec[g.r.N(len(sec))]].Config().Key
+		if g.r.P(20) {
+			for i := range key {
+				if d, ok := key[i].Value.(int32); ok {
+					key[i].Value = -d
+				}
+			}
+		}
+		return key, true
+	}
+	return g.sortSpec()
+}
+
 func (g *apiGen) projection(db, coll string) (bson.D, bool) {
 	r := g.r
 	if !r.P(30) {
@@ -680,13 +698,13 @@ func (g *apiGen) next0() *apiCall {
 	case k < 120:
 		c.M = "find"
 		c.Q = g.filter(db, coll)
-		c.Sort, c.HasSort = g.sortSpec()
+		c.Sort, c.HasSort = g.sortSpecFor(db, coll)
 		c.Proj, c.HasProj = g.projection(db, coll)
 		g.window(c)
 	case k < 180:
 		c.M = "findOne"
 		c.Q = g.filter(db, coll)
-		c.Sort, c.HasSort = g.sortSpec()
+		c.Sort, c.HasSort = g.sortSpecFor(db, coll)
 		c.Proj, c.HasProj = g.projection(db, coll)
 		if r.P(30) {
 			c.HasSkip = true
@@ -773,12 +791,12 @@ func (g *apiGen) next0() *apiCall {
 	case k < 730:
 		c.M = "findOneAndDelete"
 		c.Q = g.filter(db, coll)
-		c.Sort, c.HasSort = g.sortSpec()
+		c.Sort, c.HasSort = g.sortSpecFor(db, coll)
 		c.Proj, c.HasProj = g.projection(db, coll)
 	case k < 750:
 		c.M = "findOneAndReplace"
 		c.Q, c.Repl, c.Upsert, c.After = g.filter(db, coll), g.replacement(db, coll), r.P(35), r.P(50)
-		c.Sort, c.HasSort = g.sortSpec()
+		c.Sort, c.HasSort = g.sortSpecFor(db, coll)
 		c.Proj, c.HasProj = g.projection(db, coll)
 		if r.P(8) {
 			// a projection that fails only on the post-image (the replacement introduces the array)
@@ -791,7 +809,7 @@ func (g *apiGen) next0() *apiCall {
 	case k < 770:
 		c.M = "findOneAndUpdate"
 		c.Q, c.U, c.Upsert, c.After = g.filter(db, coll), g.update(db, coll), r.P(35), r.P(50)
-		c.Sort, c.HasSort = g.sortSpec()
+		c.Sort, c.HasSort = g.sortSpecFor(db, coll)
 		c.Proj, c.HasProj = g.projection(db, coll)
 		c.Filters, c.HasFilters = g.arrayFilters()
 		if r.P(8) {
